@@ -593,3 +593,18 @@ Example C10_look_concrete :
   c10_look_case false true look_ex_edges [LLook] [look_ex_objs]
                 false [5 # 16; 9 # 16; 17 # 16] [Some [(1%nat, 2); (0%nat, 0)]] (Some [2; 0]) None = 78%nat.
 Proof. vm_compute. repeat split; reflexivity. Qed.
+
+(* ---------------- single decisions whose variants were seeded (Model/SmallVariants.v) ---------------- *)
+From Verif Require SmallVariants SmallVariantsP.
+(* membership counts add up over any split of a patch: no size enters the rule; a second code path with the other side
+   above ANY size threshold is refuted by a patch one row larger *)
+Theorem C10_count_members_size_free : forall right_closed lo hi zs zs',
+  SmallVariants.count_members right_closed lo hi (zs ++ zs') =
+  (SmallVariants.count_members right_closed lo hi zs + SmallVariants.count_members right_closed lo hi zs')%nat.
+Proof. exact SmallVariantsP.count_members_size_free. Qed.
+Print Assumptions C10_count_members_size_free.
+Theorem C10_sized_code_path_refuted : forall threshold : nat,
+  exists zs, (threshold < length zs)%nat /\
+             SmallVariants.count_members_sized threshold true 1 2 zs <> SmallVariants.count_members true 1 2 zs.
+Proof. exact SmallVariantsP.count_members_sized_refuted. Qed.
+Print Assumptions C10_sized_code_path_refuted.
